@@ -743,6 +743,10 @@ func c10ts(c *Ctx, node *lab.Child, tsServer, protoText string) {
 			{"handler-throws-validation", map[string]any{"throw": map[string]any{"kind": "validation", "violations": []map[string]string{{"field": "a.b", "description": "d"}}}}, false, 400, []string{"a.b"}, ""},
 			{"handler-throws-error", map[string]any{"throw": map[string]any{"kind": "error", "message": "boom ü"}}, false, 500, nil, "boom ü"},
 			{"handler-throws-string", map[string]any{"throw": map[string]any{"kind": "string", "message": "plain string"}}, false, 500, nil, "plain string"},
+			// errors of other classes that merely look like the generated ones: still handler failures (500 / hook)
+			{"handler-throws-foreign-validation-error", map[string]any{"throw": map[string]any{"kind": "foreign-validation-error", "message": "foreign validation failed"}}, false, 500, nil, "foreign validation failed"},
+			{"handler-throws-error-named-api-error", map[string]any{"throw": map[string]any{"kind": "named-like-api-error", "message": "looks like an ApiError"}}, false, 500, nil, "looks like an ApiError"},
+			{"handler-throws-type-error", map[string]any{"throw": map[string]any{"kind": "type-error", "message": "x is not a function"}}, false, 500, nil, "x is not a function"},
 		} {
 			caseID := fmt.Sprintf("err/ts-server/%s/onError=%s", s.Src, on)
 			if !c.Want(caseID) {
